@@ -832,16 +832,22 @@ impl Graph {
             };
             self.parents_invalid = true;
             self.positions_invalid = true;
-            for (parent_id, len) in &self.nodes[new_id].parents {
+            // the new node does not have parents yet; the wide links to remap
+            // are those that point to the original root
+            for (parent_id, len) in &self.nodes[root].parents {
                 if !matches!(len, OffsetLen::Offset16) {
                     for link in &mut self.objects.get_mut(parent_id).unwrap().offsets {
-                        if link.object == *root {
+                        if link.object == *root && !matches!(link.len, OffsetLen::Offset16) {
                             link.object = *new_id;
                         }
                     }
                 }
             }
         }
+
+        // originals whose incoming links were all remapped above are now
+        // unreachable; the sorts must not see them as parents of their children
+        self.remove_orphans();
 
         // if any roots changed, we also rename them in the input set:
         for (old, new) in id_map {
